@@ -9,7 +9,7 @@ meta = {"property": prop,
   "origin": "independent sub-agent given only the property record, a scratch worktree of /repo and a list of ideas already tried (nothing from /verif)",
   "needs_to_manifest": needs,
   "confirmed_by_me": {"baseline_suite_with_change": conf[0], "demo_exit_with_change": int(conf[1]), "demo_exit_without_change": int(conf[2]),
-     "how": "tools/confirm_seed.sh <worktree> (suite via tools/baseline.py with PYTHONPATH=<worktree>/src; demo with the patch applied and after `git apply -R`)"},
+     "how": "tools/confirm_seed.sh / confirm_seed2.sh <worktree> (suite via tools/baseline.py with PYTHONPATH=<worktree>/src; demo with the patch applied and after `git apply -R`)"},
   "checks": {"command": "tools/eval_seed.sh %s seeded/%s/patch.diff" % (prop, name), "result": "exit 1, VIOLATION", "caught_by": det}}
 json.dump(meta, open(d + "/meta.json", "w"), indent=1)
 os.remove(d + "/.confirm")
